@@ -1993,4 +1993,75 @@ Section Cover.
     - intros c' x Hx. apply (wi_mvf _ _ _ I) in Hx. fold c in Hx. lia.
     - cbn [r1 mvf]. apply mvf_aset_lt; [exact 0%N | apply I].
   Qed.
+
+  (* ------------------------------------------------------------------ 2b/2c: one step, and sequential histories *)
+  Definition mask_ok : Prop :=
+    N.land IN_CREATE (c_mask C) <> 0%N /\ N.land IN_MOVED_FROM (c_mask C) <> 0%N /\ N.land IN_MOVED_TO (c_mask C) <> 0%N.
+
+  (* the operations for which the step lemma is proved (w = the world BEFORE the operation) *)
+  Inductive covered_op (w : world) : op -> Prop :=
+  | co_quiet o : quiet_op o -> op_np o -> covered_op w o                       (* Touch, Write, Chmod, Unlink *)
+  | co_mkdir p : npath p -> covered_op w (Mkdir p)
+  | co_rmdir p : npath p -> p <> root -> covered_op w (Rmdir p)
+  | co_rename_file p q ep : npath p -> npath q -> flookup p (w_fs w) = Some ep -> f_dir ep = false ->
+      fisdir (dirname p) (w_fs w) = true -> covered_op w (Rename p q)              (* inside, in, out, replacing a file *)
+  | co_rename_dir p q ep : npath p -> npath q -> c_recursive C = true -> flookup p (w_fs w) = Some ep -> f_dir ep = true ->
+      scope p -> p <> root -> scope q -> flookup q (w_fs w) = None -> covered_op w (Rename p q).   (* directory, inside the tree *)
+
+  Theorem cover_step w k r o w' : mask_ok -> RSync w k r -> covered_op w o -> apply_op w o = Some w' ->
+    let k1 := kernel_op k (w_fs w) o in
+    exists r' k' evs, read_batch C (w_fs w') (r, drainq k1, []) (k_queue k1) = Done (r', k', evs) /\ RSync w' k' r'.
+  Proof.
+    intros (M1 & M2 & M3) S Ho Ha k1. destruct Ho as [o Hq Hn|p Hn|p Hn Hr|p q ep Np Nq El De Ed|p q ep Np Nq Hrec El De Sp Hpr Sq Elq].
+    - destruct (step_quiet w k r o w' S Hn Hq Ha) as (evs & H1 & _ & H2). eauto.
+    - destruct (step_mkdir w k r p w' S Hn Ha M1) as (r' & k' & evs & H1 & H2 & _). eauto.
+    - apply step_rmdir; assumption.
+    - destruct (step_rename_file w k r p q w' ep S Np Nq M2 M3 Ha El De Ed) as (r' & k' & evs & H1 & H2 & _). eauto.
+    - eapply step_rename_dir_inside; eassumption.
+  Qed.
+
+  (* op; read-all; op; read-all; ...   (None = the reader crashed) *)
+  Fixpoint rrun (w : world) (k : kst) (r : rstate) (ops : list op) : option (world * kst * rstate) :=
+    match ops with
+    | [] => Some (w, k, r)
+    | o :: ops' =>
+      match apply_op w o with
+      | None => rrun w k r ops'
+      | Some w' => let k1 := kernel_op k (w_fs w) o in
+                   match read_batch C (w_fs w') (r, drainq k1, []) (k_queue k1) with
+                   | Done (r', k', _) => rrun w' k' r' ops'
+                   | Crash _ => None
+                   end
+      end
+    end.
+
+  Fixpoint ops_covered (w : world) (ops : list op) : Prop :=
+    match ops with
+    | [] => True
+    | o :: ops' => match apply_op w o with
+                   | None => ops_covered w ops'
+                   | Some w' => covered_op w o /\ ops_covered w' ops'
+                   end
+    end.
+
+  Theorem cover_sequential ops : mask_ok -> forall w k r, RSync w k r -> ops_covered w ops ->
+    exists w' k' r', rrun w k r ops = Some (w', k', r') /\ RSync w' k' r'.
+  Proof.
+    intros M. induction ops as [|o ops IH]; intros w k r S Hc; cbn [rrun ops_covered] in *.
+    - eauto.
+    - destruct (apply_op w o) as [w'|] eqn:Ea; [|now apply IH].
+      destruct Hc as [Ho Hc]. destruct (cover_step w k r o w' M S Ho Ea) as (r' & k' & evs & -> & S').
+      now apply IH.
+  Qed.
+
+  (* from a fresh watch *)
+  Theorem cover_from_start ops w : mask_ok -> wf_fs w -> fisdir root (w_fs w) = true -> ops_covered w ops ->
+    exists r0 k0 w' k' r', construct C kinit (w_fs w) = Some (r0, k0) /\ rrun w k0 r0 ops = Some (w', k', r') /\
+      wf_fs w' /\ Cover (w_fs w') k' r'.
+  Proof.
+    intros M W Hroot Hc. destruct (construct_cover w W Hroot) as (r0 & k0 & Hcons & I & Cv & Hq & _).
+    assert (S : RSync w k0 r0) by (constructor; try assumption; now apply fisdir_in).
+    destruct (cover_sequential ops M w k0 r0 S Hc) as (w' & k' & r' & Hrun & S').
+    exists r0, k0, w', k', r'. repeat split; try assumption; apply S'.
+  Qed.
 End Cover.
